@@ -280,3 +280,26 @@ _ap("move_case", 2, "move", 2, 5, 0)
 _ap("add_case", 2, "add", 3, 0, 1)
 for _i, (_ho, _os, _hp, _ps) in enumerate(((0, 1, 1, 1), (1, 0, 1, 1), (1, 1, 0, 1), (1, 1, 1, 0))):
     _ap("malformed_%d" % _i, 1, "add", 1, 2, 1, extra=["-DAP_MALFORMED", "-DAP_HASOP=%d" % _ho, "-DAP_OPSTR=%d" % _os, "-DAP_HASPATH=%d" % _hp, "-DAP_PATHSTR=%d" % _ps])
+for _sc in range(6):
+    U("u_genpatch_b_%d" % _sc, "both", "harness/u_genpatch_b.c", no_contract=True, shape="B", bound="enumerated scenario %d (see harness), member values in {0,1,2}" % _sc,
+      funcs=["create_patches", "compose_patch", "cJSONUtils_GeneratePatchesCaseSensitive", "apply_patch", "sort_object", "encode_string_as_pointer"], props=["C17"], covers=2, unwind=8,
+      unwindset=_AP_UW + ["create_patches:4", "create_patches.0:4", "create_patches.1:4", "create_patches.2:4", "create_patches.3:5", "cJSON_Compare:4", "vf_put_dec.0:3", "vf_put_dec.1:21", "vf_put_str.0:12"], timeout=(900, 3000),
+      defs=["-DGP_SCEN=%d" % _sc, "-Dh_u_genpatch_b=h_u_genpatch_b_%d" % _sc], mem=30, tiers=(),
+      note="attempted bounded stand-in for C17: only the scalar scenario (5) finishes; scenarios 0-4 exhaust 30 GB, so C17 is not claimed")
+
+# ---------------------------------------------------------------- cJSON.c : thin public wrappers
+U("cJSON_AddItemToArray", "cjson", "harness/cJSON_AddItemToArray.c", enforce="cJSON_AddItemToArray", shape="U", props=["C06", "C14", "C20"], covers=1, defs=[], replace=['add_item_to_array/add_item_to_array_cv'], note="thin wrapper: forwards to the proved helper (callee replaced by a logging view)")
+U("cJSON_AddItemToObject", "cjson", "harness/cJSON_AddItemToObject.c", enforce="cJSON_AddItemToObject", shape="U", props=["C06", "C14", "C20"], covers=1, defs=[], replace=['add_item_to_object'], note="thin wrapper: forwards to the proved helper (callee replaced by a logging view)")
+U("cJSON_AddItemToObjectCS", "cjson", "harness/cJSON_AddItemToObjectCS.c", enforce="cJSON_AddItemToObjectCS", shape="U", props=["C06", "C14", "C20"], covers=1, defs=[], replace=['add_item_to_object'], note="thin wrapper: forwards to the proved helper (callee replaced by a logging view)")
+U("cJSON_GetArrayItem", "cjson", "harness/cJSON_GetArrayItem.c", enforce="cJSON_GetArrayItem", shape="U", props=["C06", "C20"], covers=2, replace=["get_array_item"])
+U("cJSON_GetObjectItem", "cjson", "harness/cJSON_GetObjectItem.c", enforce="cJSON_GetObjectItem", shape="U", props=["C06", "C20"], covers=1, replace=["get_object_item/get_object_item_cv"])
+U("cJSON_GetObjectItemCaseSensitive", "cjson", "harness/cJSON_GetObjectItemCaseSensitive.c", enforce="cJSON_GetObjectItemCaseSensitive", shape="U", props=["C06", "C20"], covers=1, replace=["get_object_item/get_object_item_cv"])
+U("cJSON_DetachItemFromArray", "cjson", "harness/cJSON_DetachItemFromArray.c", enforce="cJSON_DetachItemFromArray", shape="U", props=["C06", "C20"], covers=2, defs=["-DVF_WRAPPER_VIEWS"], replace=["get_array_item", "cJSON_DetachItemViaPointer"])
+U("cJSON_DetachItemFromObject", "cjson", "harness/cJSON_DetachItemFromObject.c", enforce="cJSON_DetachItemFromObject", shape="U", props=["C06", "C20"], covers=1, defs=["-DVF_WRAPPER_VIEWS", "-DVF_PUBVIEW_GetObjectItem"], replace=["cJSON_GetObjectItem", "cJSON_DetachItemViaPointer"])
+U("cJSON_DetachItemFromObjectCaseSensitive", "cjson", "harness/cJSON_DetachItemFromObjectCaseSensitive.c", enforce="cJSON_DetachItemFromObjectCaseSensitive", shape="U", props=["C06", "C20"], covers=1, defs=["-DVF_WRAPPER_VIEWS", "-DVF_PUBVIEW_GetObjectItem"], replace=["cJSON_GetObjectItemCaseSensitive", "cJSON_DetachItemViaPointer"])
+U("cJSON_DeleteItemFromArray", "cjson", "harness/cJSON_DeleteItemFromArray.c", enforce="cJSON_DeleteItemFromArray", shape="U", props=["C06", "C07", "C14", "C20"], covers=1, defs=["-DVF_WRAPPER_VIEWS", "-DVF_PUBVIEW_Detach"], replace=["cJSON_DetachItemFromArray", "cJSON_Delete"])
+U("cJSON_DeleteItemFromObject", "cjson", "harness/cJSON_DeleteItemFromObject.c", enforce="cJSON_DeleteItemFromObject", shape="U", props=["C06", "C07", "C14", "C20"], covers=1, defs=["-DVF_WRAPPER_VIEWS", "-DVF_PUBVIEW_Detach"], replace=["cJSON_DetachItemFromObject", "cJSON_Delete"])
+U("cJSON_DeleteItemFromObjectCaseSensitive", "cjson", "harness/cJSON_DeleteItemFromObjectCaseSensitive.c", enforce="cJSON_DeleteItemFromObjectCaseSensitive", shape="U", props=["C06", "C07", "C14", "C20"], covers=1, defs=["-DVF_WRAPPER_VIEWS", "-DVF_PUBVIEW_Detach"], replace=["cJSON_DetachItemFromObjectCaseSensitive", "cJSON_Delete"])
+U("cJSON_ReplaceItemInArray", "cjson", "harness/cJSON_ReplaceItemInArray.c", enforce="cJSON_ReplaceItemInArray", shape="U", props=["C06", "C20"], covers=2, defs=["-DVF_RVP_VIEW"], replace=["get_array_item", "cJSON_ReplaceItemViaPointer"])
+U("cJSON_ReplaceItemInObject", "cjson", "harness/cJSON_ReplaceItemInObject.c", enforce="cJSON_ReplaceItemInObject", shape="U", props=["C06", "C20"], covers=1, defs=["-DVF_WRAPPER_VIEWS"], replace=["replace_item_in_object/replace_item_in_object_cv"])
+U("cJSON_ReplaceItemInObjectCaseSensitive", "cjson", "harness/cJSON_ReplaceItemInObjectCaseSensitive.c", enforce="cJSON_ReplaceItemInObjectCaseSensitive", shape="U", props=["C06", "C20"], covers=1, defs=["-DVF_WRAPPER_VIEWS"], replace=["replace_item_in_object/replace_item_in_object_cv"])
